@@ -26,7 +26,7 @@ from . import deckprop, c01, c05, c12
 
 PROP = 'C14'
 FUNCTIONS = ['MIP.mip.blocks.get_block_positions', 'MIP.mip.cards.get_cards / is_continuation / expand_tabs', 'MIP.mip.main.Card.content / parts / MIP.cards',
-             'MIP.mip.cellcard.split / surfacecard.split / datacard.split / expand_data_card', 'ParseMCNPCell option tokenisation', 'pipelines of C01, C04 (TRCL decks), C05, C12']
+             'MIP.mip.cellcard.split / surfacecard.split / datacard.split / expand_data_card', 'ParseMCNPCell option tokenisation', 'pipelines of C01, C04 (TRCL decks), C05, C06 (FILL arrays with shorthand), C12']
 
 
 def respelled_deck(task):
@@ -41,6 +41,11 @@ def respelled_deck(task):
     elif fam == 'c04':
         from . import c04
         deck, pre = c04.trcl_deck(random.Random(t[0]), force_sp=t[1])
+    elif fam == 'c06':
+        from . import c06
+        deck, pre = c06.make(t)
+        deck.fill_shorthand = True
+        deck.opts_order = t[0] + 17
     else:
         deck, pre = c12.make(t)
     rnd = random.Random(sd)
@@ -231,6 +236,9 @@ def tasks_for(tier):
             out.append(('deck', ('c15', (base + i, ['level0', 'chain', 'universe', 'fill'][(i // 2) % 4]), base + i, False)))
     for i in range(4 if tier == 'quick' else 24):
         out.append(('deck', ('c01', (base + i, 3, 3, 2), base + 7 * i, True)))
+    # lattice cells: FILL arrays with repeat shorthand, options in any order
+    for i in range(6 if tier == 'quick' else 40):
+        out.append(('deck', ('c06', (base + i, 1 + i % 2, 'array', False), base + 31 * i + 3, False)))
     # TR / *TR data cards (the mnemonic of a data card is a word like any other: any letter case)
     for i in range(12 if tier == 'quick' else 60):
         out.append(('deck', ('c04', (base + i, ['numstar', 'num', 'numstar', 'star'][i % 4]), base + 101 * i + 5, False)))
